@@ -168,6 +168,7 @@ fn main() {
                     O::Fail(m) => m.clone(),
                     O::Died(m) => format!("the call did not return: process {}", m),
                     O::CpuLimit => "the call did not return within 60 s of CPU time".to_string(),
+                    O::Blocked => "the call does not return: every thread sleeps and no CPU time is consumed (it waits for a lock that is never released)".to_string(),
                     _ => String::new(),
                 };
                 engine::emit(&format!("  failure: {}", m));
